@@ -195,9 +195,8 @@ pub fn run(tier: &str, seed: u64) -> Report {
               if f19_possible {
                 triggers.push("types-only-segment-omits-untyped-module-with-types-dependency");
               }
-              if !w.imports.is_empty() {
-                triggers.push("segment-keeps-configured-imports-entries");
-              }
+              // (F15, "segment-keeps-configured-imports-entries", was repaired: a code-only build ignores
+              // the configured imports, so a code-only graph has none to clone)
               if w.opts.skip_dynamic_deps || w.opts.is_dynamic {
                 triggers.push("segment-follows-dynamic-imports-the-build-options-skip");
               }
